@@ -10,8 +10,9 @@ Differences to `Oracle.checkRewrite`:
   whose exact subterm values leave the range in which doubles are dense (|v| < 1e-290 or > 1e290)
   are skipped.
 * the division clause follows the theorems of `Rooc.Props.C10`:
-  - `division-erased`            : hypothesis of `div_preserved_nonconstant_partial` holds
-                                   (`protDiv`), conclusion fails on the implementation's output;
+  - `division-erased`            : hypothesis of `div_preserved_nonconstant` holds (`protDiv`:
+                                   some divisor does not simplify to a non-zero literal),
+                                   conclusion fails on the implementation's output;
   - `division-erased-semantic`   : a semantically bad division outside absorbing constants vanished
                                    and nothing below explains it;
   - `division-erased-divisor-undefined-under-absorbing-constant` : the divisor is undefined at every
@@ -67,7 +68,7 @@ partial def snap (S : List Rat) (tol : Rat) : Exp (Ext Rat) → Exp (Ext Rat)
 def tiny : Rat := 1 / (10 : Rat)^(290 : Nat)
 def huge : Rat := (10 : Rat)^(290 : Nat)
 
-/-! ### Bool mirrors of `Exp.badDivisor`, `Exp.HasDivBy`, `Exp.ProtDiv` (see `Proofs/ExpLemmasDiv`) -/
+/-! ### Bool mirrors of `Exp.badDivisor`, `Exp.HasDivBy`, `Exp.DivS` (see `Proofs/ExpLemmasDiv`) -/
 
 def badDivisor : Exp (Ext Rat) → Bool
   | .num z => Arith.eq z Arith.zero
@@ -86,18 +87,15 @@ def isLitAbs (isAnd : Bool) : Exp (Ext Rat) → Bool
   | .num v => absorbing isAnd v
   | _ => false
 
+/-- Bool mirror of `Exp.DivS badDivisor`: some division whose divisor does not simplify to a non-zero
+literal — the hypothesis of `Rooc.Props.C10.div_preserved_nonconstant` (FULL since rooc 9f62afd: no
+condition on absorbing constants any more). -/
 partial def protDiv : Exp (Ext Rat) → Bool
   | .num _ | .var _ => false
   | .abs e | .not e | .un _ e => protDiv e
-  | .min es | .max es => es.any protDiv
-  | .and es => es.any protDiv && es.all (fun c => !(isLitAbs true (Exp.simplify c)))
-  | .or es => es.any protDiv && es.all (fun c => !(isLitAbs false (Exp.simplify c)))
+  | .min es | .max es | .and es | .or es => es.any protDiv
   | .xor a b | .implies a b | .iff a b => protDiv a || protDiv b
-  | .bin op a b =>
-    (protDiv a || protDiv b || (op == .div && badDivisor (Exp.simplify b))) &&
-    (op != .mul || (!(Exp.isNumEq (Exp.simplify a) Arith.zero) && !(Exp.isNumEq (Exp.simplify b) Arith.zero))) &&
-    (op != .and || (!(isLitAbs true (Exp.simplify a)) && !(isLitAbs true (Exp.simplify b)))) &&
-    (op != .or || (!(isLitAbs false (Exp.simplify a)) && !(isLitAbs false (Exp.simplify b))))
+  | .bin op a b => protDiv a || protDiv b || (op == .div && badDivisor (Exp.simplify b))
 
 /-- some division whose divisor is undefined at every small assignment although it simplifies to a
 non-zero finite literal. -/
